@@ -78,7 +78,7 @@ def finish(ctx, level, coverage, assumptions):
     for key, v in new:
         path = write_replay(ctx.prop, key, dict(what=v['what'], count=v['count'], replay=v['replay']))
         print('VIOLATION property=%s replay=%s' % (ctx.prop, path), flush=True)
-        print('#   %s: %s (x%d)' % (key, v['what'], v['count']), flush=True)
+        print('#   %s: %s (x%d)' % (key, v['what'][:int(os.environ.get('VERIF_WHAT_LEN', '600'))], v['count']), flush=True)
     if os.environ.get('VERIF_DEBUG'):
         with open('/tmp/verif-debug-%s.json' % ctx.prop, 'w') as f:
             json.dump({k: dict(what=v['what'], count=v['count']) for k, v in ctx.violations.items()}, f, indent=1, default=str)
